@@ -43,15 +43,16 @@ type issued struct {
 }
 
 type cmdSpec struct {
-	name string
-	args []string
-	ts   time.Time
+	name    string
+	args    []string
+	ts      time.Time
+	mayFail bool
 }
 
 func main() {
 	r := mc.NewRun("C03")
 	nRot := mc.Pick(r, 2, 3)
-	r.Rule(fmt.Sprintf("E3 over histories bootstrap; rotate^n (n<=%d; default serial, serial override 9, changed common name) through the real CLI for memkm+memca, memkm+gcsca and localkm+localca; after each command 18 endorse request shapes {snp, tdx, both} x {launch VMSAs 0,1,2} x {changelist, commit}; every endorsement issued so far is re-verified after every later command at {start-1s, start, mid, end, end+1s} of the intersection of both certificates' validity; states = distinct (authority, history prefix, request shape); non-trivial = distinct (endorsement, verification time, entry point) accepted inside validity", nRot))
+	r.Rule(fmt.Sprintf("E3 over histories bootstrap; rotate; rotate with a colliding serial (refused); rotate serial=9; rotate serial=9 --keep_going (colliding); [thorough: rotate with a new common name] (bound %d) through the real CLI for memkm+memca, memkm+gcsca and localkm+localca; after each command 18 endorse request shapes {snp, tdx, both} x {launch VMSAs 0,1,2} x {changelist, commit}; every endorsement issued so far is re-verified after every later command at {start-1s, start, mid, end, end+1s} of the intersection of both certificates' validity; states = distinct (authority, history prefix, request shape); non-trivial = distinct (endorsement, verification time, entry point) accepted inside validity", nRot))
 	defer kmfx.Cleanup()
 	image := fx.SmallImage(0x3000)
 	fwDir := filepath.Join(kmfx.ScratchRoot(), "fw")
@@ -61,11 +62,15 @@ func main() {
 	t0 := fx.T0
 	tsf := func(t time.Time) string { return "--timestamp=" + t.Format(time.RFC3339) }
 	cmds := []cmdSpec{
-		{"bootstrap", []string{"bootstrap", tsf(t0)}, t0},
-		{"rotate", []string{"rotate", tsf(t0.Add(30 * 24 * time.Hour))}, t0.Add(30 * 24 * time.Hour)},
-		{"rotate serial=9", []string{"rotate", "--rotated_key_serial_override=9", tsf(t0.Add(60 * 24 * time.Hour))}, t0.Add(60 * 24 * time.Hour)},
-		{"rotate cn=X", []string{"rotate", "--signing_key_cn=X", tsf(t0.Add(400 * 24 * time.Hour))}, t0.Add(400 * 24 * time.Hour)},
-	}[:nRot+1]
+		{"bootstrap", []string{"bootstrap", tsf(t0)}, t0, false},
+		{"rotate", []string{"rotate", tsf(t0.Add(30 * 24 * time.Hour))}, t0.Add(30 * 24 * time.Hour), false},
+		// A rotation whose certificate object name collides with an existing one (serial 2 is the
+		// bootstrap signing certificate) may be refused; whatever it leaves behind must still endorse.
+		{"rotate serial=2 (collides)", []string{"rotate", "--rotated_key_serial_override=2", tsf(t0.Add(45 * 24 * time.Hour))}, t0.Add(45 * 24 * time.Hour), true},
+		{"rotate serial=9", []string{"rotate", "--rotated_key_serial_override=9", tsf(t0.Add(60 * 24 * time.Hour))}, t0.Add(60 * 24 * time.Hour), false},
+		{"rotate serial=9 --keep_going (collides)", []string{"rotate", "--rotated_key_serial_override=9", "--keep_going", tsf(t0.Add(75 * 24 * time.Hour))}, t0.Add(75 * 24 * time.Hour), true},
+		{"rotate cn=X", []string{"rotate", "--signing_key_cn=X", tsf(t0.Add(400 * 24 * time.Hour))}, t0.Add(400 * 24 * time.Hour), false},
+	}[:mc.Pick(r, 5, 6)]
 	type shape struct {
 		name string
 		args []string
@@ -88,8 +93,12 @@ func main() {
 		for step, c := range cmds {
 			hist = append(hist, c.name)
 			if err := w.CLI(c.args...); err != nil {
-				r.Violation(kind+"/command-fails", fmt.Sprintf("kind=%s history=%s", kind, strings.Join(hist, ";")), fmt.Sprintf("fault-free %q fails: %v", c.name, err), nil)
-				break
+				if !c.mayFail {
+					r.Violation(kind+"/command-fails", fmt.Sprintf("kind=%s history=%s", kind, strings.Join(hist, ";")), fmt.Sprintf("fault-free %q fails: %v", c.name, err), nil)
+					break
+				}
+				hist[len(hist)-1] += " [refused]"
+				r.Outcome("command-refused")
 			}
 			r.Transition(1)
 			st := w.Inspect()
